@@ -166,6 +166,14 @@ theorem C16_fol_rerun_equal_of_no_growth (kb : FKB ι α) (cs cs' : List (FCall 
     FolFix.PG (runFCalls kb cs' (resetAll (runFCalls kb cs s).1)) (runFCalls kb cs' (resetAll s)) :=
   FolFix.runFCalls_congr kb cs' (C16_fol_reset_exact_of_no_growth kb cs s hlen)
 
+/-- the same for the EXECUTED calls (with grounding propagation through partially quantified
+sub-formulae): what `reset_bounds()` returns afterwards is the reset start state plus world-default
+rows for the discovered groundings -/
+theorem C16_layer_reset_is_fresh_plus_rows (kb : FKB ι α) (cs : List (FCall ι)) (p : PState ι α) (i : ι) :
+    ∃ ex : Table α, (resetAll (runPCalls kb cs p).1.st).get i = (resetAll p.st).get i ++ ex ∧
+      ∀ r ∈ ex, r = ⟨r.g, (kb i).world, (kb i).world⟩ :=
+  (sevW_runPCalls kb cs p).reset_tables i
+
 end fol
 
 end LNN
